@@ -174,4 +174,130 @@ theorem k_encBuildGenerator_eq (F : GF.GF) (hF : TablesOK F) (cache : List Poly)
     rw [idxL_polys _ _ degree rfl, List.getElem?_eq_getElem (by omega)]
     rfl
 
+
+/-! ### ReedSolomonEncoder.Encode -/
+
+/-- how `Encode` renders a model result (error flag, generator cache, the slice `toEncode` after the call) for an encoder whose
+    cache holds generators: parity written behind the data and `nil`; the slice untouched and a non-nil error for a checked
+    failure; the panic itself.  The cache afterwards again holds generators only. -/
+def EncodeAgrees (F : GF.GF) (orig : List Nat) (g : Res (Bool × List (List Int) × List Int)) : Res (List Nat) → Prop
+  | .ok w => ∃ cache', CacheOK F cache' ∧ g = .ok (false, polys cache', ints w)
+  | .error (.panic s) => g = .error (.panic s)
+  | .error _ => ∃ cache', CacheOK F cache' ∧ g = .ok (true, polys cache', ints orig)
+
+theorem EncodeAgrees_panic {F : GF.GF} {o : List Nat} {g : Res (Bool × List (List Int) × List Int)} {e : Fault}
+    (he : IsPanic e) (h : g = .error e) : EncodeAgrees F o g (.error e) := by
+  obtain ⟨w, rfl⟩ := he; exact h
+
+when_kernel Gzx.Gen.K04b.encEncode in
+/-- `Encode(toEncode, ecBytes)` = the model's `encodeArr` (for every fuel of at least `len(toEncode)+1` rounds, whenever the
+    model's division does not exhaust its own budget — it never does, `Properties/C04`) -/
+theorem k_encEncode_eq (F : GF.GF) (hF : TablesOK F) (cache : List Poly) (hc : CacheOK F cache) (toEncode : List Nat) (ec : Nat)
+    (fuel : Nat) (hfuel : toEncode.length + 1 ≤ fuel) (hnf : encodeArr F toEncode ec ≠ .error .fuel) :
+    EncodeAgrees F toEncode (Gen.K04b.encEncode fuel (fieldRec F) (polys cache) (ints toEncode) ec) (encodeArr F toEncode ec) := by
+  simp only [Gen.K04b.encEncode, encodeArr, len_ints] at hnf ⊢
+  by_cases h0 : ec = 0
+  · subst h0
+    simp only [show decide (((0 : Nat) : Int) ≤ 0) = true from rfl, if_true]
+    exact ⟨cache, hc, rfl⟩
+  have hd0 : decide ((ec : Int) ≤ 0) = false := by apply decide_eq_false; omega
+  simp only [hd0, Bool.false_eq_true, if_false, h0] at hnf ⊢
+  by_cases h1 : toEncode.length ≤ ec
+  · have hd1 : decide ((toEncode.length : Int) - (ec : Int) ≤ 0) = true := by apply decide_eq_true; omega
+    simp only [hd1, if_true, h1]
+    exact ⟨cache, hc, rfl⟩
+  have hd1 : decide ((toEncode.length : Int) - (ec : Int) ≤ 0) = false := by apply decide_eq_false; omega
+  simp only [hd1, Bool.false_eq_true, if_false, h1, bind, Except.bind] at hnf ⊢
+  have hk : (toEncode.length : Int) - (ec : Int) = ((toEncode.length - ec : Nat) : Int) := by omega
+  have hbg := k_encBuildGenerator_eq F hF cache hc ec
+  cases hg : buildGenerator F ec with
+  | error e =>
+    rw [hg] at hbg
+    simp only [] at hbg ⊢
+    rw [hbg]
+    exact EncodeAgrees_panic (buildGenerator_error F _ _ hg) rfl
+  | ok gen =>
+    rw [hg] at hbg
+    obtain ⟨cache', hc', hgen⟩ := hbg
+    simp only [hg] at hnf
+    simp only [hgen, tryR_ok, hk]
+    rw [mk_words _ (toEncode.length - ec) rfl]
+    simp only [tryR_ok]
+    rw [copyL_zeros _ _ (by omega), k_newPoly_eq]
+    have hne : toEncode.take (toEncode.length - ec) ≠ [] := by
+      intro h; have := congrArg List.length h; simp at this; omega
+    rw [Proofs.Poly.mkPoly_ok _ hne] at hnf ⊢
+    simp only [expE_ok, tryR_ok] at hnf ⊢
+    have hi1 : normalize (toEncode.take (toEncode.length - ec)) ≠ [] := Proofs.Poly.normalize_ne_nil _
+    rw [k_polyMultiplyByMonomial_at F hF _ _ _ ec 1 (by rfl) (by rfl)]
+    cases hmm : multiplyByMonomial F (normalize (toEncode.take (toEncode.length - ec))) ec 1 with
+    | error e =>
+      have hp := multiplyByMonomial_error hi1 hmm
+      rw [expE_of_panic _ _ hp]
+      exact EncodeAgrees_panic hp rfl
+    | ok info =>
+      simp only [hmm] at hnf
+      simp only [expE_ok, tryR_ok]
+      have hinfo : info ≠ [] := multiplyByMonomial_ne hmm
+      have hgne : gen ≠ [] := buildGenerator_ne F _ _ hg
+      have hil : info.length ≤ toEncode.length := by
+        have h1 := multiplyByMonomial_length_le hi1 hmm
+        have h2 := Proofs.Poly.normalize_length_le _ hne
+        simp at h2; omega
+      have hnfd : divide F info gen ≠ .error .fuel := by
+        intro h; rw [h] at hnf; exact hnf rfl
+      rw [k_polyDivide_eq F hF info gen hinfo hgne fuel (by omega) hnfd]
+      cases hdv : divide F info gen with
+      | error e =>
+        cases e with
+        | panic w => exact rfl
+        | fuel => exact absurd hdv hnfd
+        | illegalArg => exact ⟨cache', hc', rfl⟩
+        | notFound => exact ⟨cache', hc', rfl⟩
+        | checksum => exact ⟨cache', hc', rfl⟩
+        | format => exact ⟨cache', hc', rfl⟩
+        | writer => exact ⟨cache', hc', rfl⟩
+      | ok qr =>
+        obtain ⟨q, rem⟩ := qr
+        simp only [expE2, tryR_ok, Bool.false_eq_true, if_false, len_ints]
+        by_cases hlong : rem.length > toEncode.length
+        · -- the remainder does not fit: no zero fill, the copy panics
+          simp only [hlong, if_true]
+          have ht : tripUp 0 ((ec : Int) - (rem.length : Int)) 1 = 0 := by rw [tripUp_one]; omega
+          rw [ht, loop_zero]
+          simp only [next_thenR]
+          rw [copySeg_neg _ _ _ _ (by omega)]
+          exact rfl
+        simp only [hlong, if_false]
+        by_cases hfit : rem.length ≤ ec
+        · -- the usual case: `ec - len(rem)` zeros, then the remainder
+          rw [loop_range ints (fun i t => stepC (Bits.setWord t (toEncode.length - ec + i) 0)) 0 (ec - rem.length) toEncode]
+          · rw [fill_zero _ _ _ (by omega)]
+            simp only [mapS_next, next_thenR]
+            rw [copySeg_tail (toEncode.take (toEncode.length - ec) ++ List.replicate (ec - rem.length) 0 ++
+                toEncode.drop (toEncode.length - ec + (ec - rem.length))) rem (toEncode.length - rem.length) _ _
+              (by omega) (by rw [len_ints]) (by simp; omega) (by simp; omega)]
+            refine ⟨cache', hc', ?_⟩
+            simp only [tryR_ok]
+            have hA : (toEncode.take (toEncode.length - ec) ++ List.replicate (ec - rem.length) 0).length =
+                toEncode.length - rem.length := by simp; omega
+            rw [List.take_left' hA, Nat.min_eq_left (by omega),
+              show toEncode.length - rem.length - (toEncode.length - ec) = ec - rem.length by omega]
+          · rfl
+          · rw [tripUp_one]; omega
+          · rfl
+          · intro i _ _ t
+            rw [setIdx_words _ _ _ (toEncode.length - ec + i) 0 (by omega) (by rfl)]
+            cases Bits.setWord t (toEncode.length - ec + i) 0 <;> rfl
+        · -- a remainder longer than `ecBytes`: no zero fill, the copy starts inside the data
+          have ht : tripUp 0 ((ec : Int) - (rem.length : Int)) 1 = 0 := by rw [tripUp_one]; omega
+          rw [ht, loop_zero]
+          simp only [next_thenR]
+          rw [copySeg_tail toEncode rem (toEncode.length - rem.length) _ _ (by omega) (by rw [len_ints]) (by omega) (by omega)]
+          refine ⟨cache', hc', ?_⟩
+          simp only [tryR_ok]
+          congr 3
+          rw [Nat.min_eq_right (by omega), show toEncode.length - rem.length - (toEncode.length - ec) = 0 by omega]
+          simp
+
 end Gzx.Obligations.K04bEnc
